@@ -248,3 +248,26 @@ Proof.
   - apply text_eqb_eq in E. inversion H; subst. now left.
   - right. now apply IH.
 Qed.
+
+(* ---------- model mutation score: the comparators of the correspondence driver and mean_defined, pinned ---------- *)
+Example mean_defined_pins :
+  let T := fun s : string => list_ascii_of_string s in
+  mean_defined (l_record l0 (T "k"%string) (LStr (T "abc"%string)) []) (T "k"%string) = false /\
+  mean_defined (l_record l0 (T "k"%string) (LNum 1) []) (T "k"%string) = true /\ mean_defined l0 (T "k"%string) = true /\
+  mean_defined (l_record l0 (T "k"%string) (LStr (T "abc"%string)) []) (T "j"%string) = true.
+Proof. repeat split. Qed.
+
+Example lval_close_pins :
+  lval_close (LNum 1) (LNum (1 + (15 # 10000000000))) = true /\ lval_close (LNum 1) (LNum (1 + (3 # 1000000000))) = false /\
+  lval_close (LStr []) (LStr []) = true /\ lval_close (LNum 1) (LStr []) = false /\ lval_close (LStr []) (LNum 1) = false.
+Proof. repeat split. Qed.
+
+Example entry_ok_pins :
+  let T := fun s : string => list_ascii_of_string s in
+  let k := T "k"%string in
+  entry_ok [(k, [T "csv"%string])] (k, LNum 1) (k, LNum 1, [T "csv"%string]) = true /\
+  entry_ok [(k, [T "csv"%string])] (k, LNum 1) (k, LNum 1, [T "json"%string]) = false /\     (* another exclusion tuple *)
+  entry_ok [] (k, LNum 1) (k, LNum 1, [T "csv"%string]) = false /\                             (* no exclusion entry for the key *)
+  entry_ok [(k, [T "csv"%string])] (k, LNum 1) (T "j"%string, LNum 1, [T "csv"%string]) = false /\   (* another key *)
+  entry_ok [(k, [T "csv"%string])] (k, LNum 1) (k, LNum 2, [T "csv"%string]) = false.          (* another value *)
+Proof. repeat split. Qed.
